@@ -143,6 +143,18 @@ class Store(object):
         if kind == "mem":
             from fs.memoryfs import MemoryFS
             self.fs = MemoryFS()
+        elif kind == "memsub":
+            # a backend that uses the documented FS.subfs_class hook
+            from fs.memoryfs import MemoryFS
+            from fs.subfs import SubFS
+
+            class CustomSubFS(SubFS):
+                pass
+
+            class CustomMemoryFS(MemoryFS):
+                subfs_class = CustomSubFS
+            self.kind = "mem"
+            self.fs = CustomMemoryFS()
         elif kind == "os":
             from fs.osfs import OSFS
             self.tmp = tempfile.mkdtemp(prefix="pyfs2verif_")
@@ -211,6 +223,7 @@ def ro_constructions():
         st = Store("mem")
         return read_only(read_only(st.fs)), st
     return [("read_only(MemoryFS)", plain("mem")), ("read_only(OSFS)", plain("os")),
+            ("read_only(MemoryFS with subfs_class)", plain("memsub")),
             ("read_only(SubFS(MemoryFS))", ro_of_sub), ("read_only(MountFS)/m", mount),
             ("read_only(read_only(MemoryFS))", nested)]
 
@@ -221,22 +234,70 @@ def archive_constructions():
     from fs.zipfs import ZipFS
     from fs.tarfs import TarFS
     out = []
-    for label, writer, cls in (("ReadZipFS", write_zip, ZipFS), ("ReadTarFS", write_tar, TarFS)):
+
+    def implied_zip(_src, buf):
+        # members added by path only: the directories are implied, there is no member for them
+        import zipfile
+        with zipfile.ZipFile(buf, "w") as z:
+            z.writestr("f.txt", b"hello")
+            z.writestr("d/g.txt", b"world\nline2\n")
+            z.writestr("d/sub/x.txt", b"x")
+
+    def implied_tar(_src, buf):
+        import tarfile
+        with tarfile.open(fileobj=buf, mode="w") as t:
+            for n, d in (("f.txt", b"hello"), ("d/g.txt", b"world\nline2\n"), ("d/sub/x.txt", b"x")):
+                ti = tarfile.TarInfo(n)
+                ti.size = len(d)
+                ti.mtime = 1400000000
+                t.addfile(ti, io.BytesIO(d))
+
+    def deep(fsx):
+        """Everything observable through the API: names, every info namespace, bytes."""
+        rows = []
+        try:
+            todo = ["/"]
+            while todo:
+                d = todo.pop()
+                for n in sorted(fsx.listdir(d)):
+                    q = d.rstrip("/") + "/" + n
+                    i = fsx.getinfo(q, namespaces=["details", "access", "tar", "zip", "stat", "link"])
+                    rows.append((q, repr(sorted((k, sorted(v.items(), key=repr)) for k, v in i.raw.items()))))
+                    if i.is_dir:
+                        todo.append(q)
+                    else:
+                        rows.append((q, fsx.readbytes(q)))
+        except Exception as e:  # noqa
+            rows.append(("ERR", type(e).__name__))
+        return rows
+
+    for label, writer, cls in (("ReadZipFS", write_zip, ZipFS), ("ReadTarFS", write_tar, TarFS),
+                               ("ReadZipFS(implied directories)", implied_zip, ZipFS),
+                               ("ReadTarFS(implied directories)", implied_tar, TarFS)):
         def make(writer=writer, cls=cls):
             src = MemoryFS()
             populate(src)
             buf = io.BytesIO()
             writer(src, buf)
             raw = buf.getvalue()
+            buf.seek(0)
+            obj = cls(buf)
 
             class St(object):
                 def snapshot(self_):
-                    return repr(buf.getvalue() == raw)
+                    # the archive bytes, and: the object still looks exactly like a freshly opened one
+                    if obj.isclosed():
+                        return repr((buf.closed or buf.getvalue() == raw, "closed"))
+                    fresh = cls(io.BytesIO(raw))
+                    try:
+                        same = deep(obj) == deep(fresh)
+                    finally:
+                        fresh.close()
+                    return repr((buf.getvalue() == raw, same))
 
                 def cleanup(self_):
                     pass
-            buf.seek(0)
-            return cls(buf), St()
+            return obj, St()
         out.append((label, make))
     return out
 
@@ -491,8 +552,12 @@ def ro_model_check(report, rnd, n_hist):
     lines, got, hists = [], [], []
     for _ in range(n_hist):
         g = genhist.Gen(rnd, odd=0.1, spell=0.2)
-        h = g.history(rnd.randint(6, 22))
-        k = rnd.randint(0, max(0, len(h) - 3))
+        setup = g.history(rnd.randint(0, 14))
+        k = len(setup)
+        # through the read-only view: mostly the calls that are let through
+        g.bias = dict(readbytes=10, openread=10, getinfo=8, listdir=8, scandir=6, exists=4, isdir=3, isfile=3,
+                      isempty=4, getsize=4, gettype=3, openwrite=6)
+        h = setup + g.history(rnd.randint(3, 12))
         mem = MemoryFS()
         ro = read_only(mem)
         rec = []
